@@ -12,7 +12,7 @@ TRUSTED = ["Lean 4.33 kernel; axioms ⊆ {propext, Classical.choice, Quot.sound}
            "model granularity: the abstract grace-period algorithm (Gp/Flip.lean); the event-level transliteration of the C text in Driver/Gp.lean maps each run of the real code to model labels (checked on explored schedules, not proved)",
            "harness runs are sequentially consistent (cooperative scheduler): store-buffer delays are quantified in the theorems only",
            "compiler barriers: presence/position checked as events, effect on the optimiser not modelled",
-           "qsbr: Gp/Qsbr.lean + Props/C01Qsbr.lean (64-bit single-pass variant; counters do not wrap); bp flavor: same two-pass algorithm, its trace tie is not built yet"]
+           "qsbr: Gp/Qsbr.lean + Props/C01Qsbr.lean (64-bit single-pass variant; counters do not wrap); bp flavor: the same two-pass algorithm and model (Gp/Flip.lean), tied by harness/scen/gp_bp.c"]
 OWN = {"gp", "litmus"}
 
 
